@@ -19,6 +19,50 @@ CHECKS = {
             "dedup, and the comparison operators over all pairs/triples.",
             "Pools of <=9 events; adding one object twice unexplored; "
             "reference = Python sort by (time,-priority,id)."),
+    "C02": ("exploration",
+            "bounded-exhaustive enumeration of model programs executed on the "
+            "real DEVS simulators under a cooperative scheduler, compared "
+            "with a reference DEVS interpreter",
+            "progmc+coopsched",
+            "Every handler tree with <=3 (thorough <=4) scheduled events over "
+            "delay/priority alphabets with forced ties and zero delays, alone "
+            "and with every single cancel / illegal request inserted at every "
+            "position, plus wide programs (4..15/23 pending events, every "
+            "cancel target) on the float, int and Duration simulators; the "
+            "executed (clock, tag) trace, final clock/state, refusal of every "
+            "illegal request and unchanged event list are compared with a "
+            "40-line reference interpreter.",
+            "Sequential scheduler mode (no interleavings); reference = sorted "
+            "pending list with inclusive horizon; wrong-typed times may be "
+            "refused with any exception."),
+    "C03": ("exploration",
+            "exhaustive enumeration of segmentations (run_up_to / "
+            "run_up_to_including / step / driver stop at event k) x model "
+            "programs in lockstep with reference semantics on the real "
+            "simulator",
+            "progmc+coopsched",
+            "All sequences of <=2 (thorough <=3) run pieces with cut points "
+            "before/at/between event times, at and beyond the end, over all "
+            "<=3-event programs and the three clocks; after every piece "
+            "outcome, executed trace, clock and states must equal the "
+            "reference, and the whole must equal the uninterrupted run.",
+            "Unspecified cells (bound before clock / beyond end, step with "
+            "next event beyond the end) only get the safety oracle; driver "
+            "stop lands while handler k runs (rendezvous), other overlaps are "
+            "C04."),
+    "C05": ("fault_enumeration",
+            "exhaustive fault-plan enumeration (which handlers fail, where, "
+            "event class, strategy, driver) on the real simulator in lockstep "
+            "with the reference",
+            "progmc+coopsched",
+            "Every single and double set of failing handlers x before/after "
+            "the handler's actions x SimEvent/non-wrapping event class x the "
+            "three non-terminating strategies x start / bounded pieces / "
+            "step drivers over all <=3-event programs; continue strategies "
+            "must give the fault-free trace, pause must stop right after the "
+            "failing event and resume exactly, step must contain the failure.",
+            "WARN_AND_END/EXIT outside the property; library stdout/stderr "
+            "noise discarded."),
 }
 
 NOT_YET = {}
